@@ -21,8 +21,8 @@ Proved about that semantics:
   every matching rule's constraint failed (`no_rule_means_all_failed`).
 
 Not covered by a theorem: that executing the chosen action and resuming "at the position the rule returns" equals a
-separately written reference (the model *is* that reference); positions in design units (not modelled); right-to-left
-passes and the bidi pass.
+separately written reference (the model *is* that reference).  Pass constraints, passes in either direction and the bidi
+step are part of the model (theorems at the end of this file); mirroring is not.
 -/
 set_option linter.unusedVariables false
 namespace GrVerif.Props.C06
@@ -100,6 +100,36 @@ theorem pass_without_constraint_runs (p : PassT) (c : Ctx) (s0 : Nat) (hp : p.pc
   unfold testPassConstraint
   rw [hp]
   rfl
+
+/-! ### pass sequencing (`Silf::runGraphite`): every pass of a call runs once, the bidi step at most once -/
+
+/-- a font without a bidi step: a call of `Silf::runGraphite` is the plain run of its passes, each turning the stream as it wants -/
+theorem call_without_bidi_step (passes : Array PassT) (c : Ctx) (lo hi : Nat) (dobidi : Bool) (fuel : Nat) :
+    runPhase passes 0xFF c lo hi dobidi fuel = runRange passes c lo hi fuel := by
+  unfold runPhase runRange
+  simp
+
+/-- a call whose range contains the bidi step (`lo < bPass ≤ hi`): the passes in front of it, the step, the passes behind it – in font
+order, each once, none of them turning the stream on its own.  (The engine's range logic used to run passes twice for some bidi
+indices; repaired in /repo, fix ef5d3b4c.) -/
+theorem call_with_bidi_step (passes : Array PassT) (bPass : Nat) (c : Ctx) (lo hi : Nat) (dobidi : Bool) (fuel : Nat)
+    (hb : bPass ≠ 0xFF) (h1 : lo < bPass) (h2 : bPass ≤ hi) (c1 : Ctx)
+    (hfront : runPasses passes (c.seg.numGlyphs * 64) false (c.beginRange (c.seg.numGlyphs * 64)) lo bPass fuel = .ok (some c1)) :
+    runPhase passes bPass c lo hi dobidi fuel = runPasses passes (c.seg.numGlyphs * 64) false (bidiStep c1) bPass hi fuel := by
+  unfold runPhase
+  simp only []
+  rw [if_pos ⟨hb, Or.inl ⟨h1, h2⟩⟩, hfront]
+
+/-- a call whose range does not contain the bidi step runs its passes as a font without one would -/
+theorem call_beside_bidi_step (passes : Array PassT) (bPass : Nat) (c : Ctx) (lo hi : Nat) (fuel : Nat)
+    (h : bPass ≤ lo ∨ hi < bPass) : runPhase passes bPass c lo hi false fuel = runRange passes c lo hi fuel := by
+  unfold runPhase runRange
+  simp only []
+  rw [if_neg]
+  intro hc
+  rcases hc.2 with ⟨a, b⟩ | ⟨a, _⟩
+  · omega
+  · cases a
 
 /-! ### non-vacuity: a two-rule pass over two columns – rule 0 = "a", rule 1 = "a b" (longer, so it comes first) -/
 def pass2 : PassT :=
